@@ -796,12 +796,12 @@ func GoLdapControls(frame []byte) (recs []CtrlRec, ok bool, why string) {
 
 // Gen draws requests from the choice source.
 type Gen struct {
-	Ch   *Chooser
-	Big  bool // allow values beyond 64 KiB
+	Ch  *Chooser
+	Big bool // allow values beyond 64 KiB
 	// GldapEncPct: share of request controls encoded by gldap's own Encode
 	GldapEncPct int
-	used map[int64]bool
-	next int64
+	used        map[int64]bool
+	next        int64
 }
 
 func NewGen(ch *Chooser) *Gen { return &Gen{Ch: ch, used: map[int64]bool{}, next: 1} }
